@@ -50,6 +50,8 @@ def find_minimal(seed: int, max_examples: int, strategy, probe, bucket: str):
     produces. Returns the (message, replay) of the minimal failing value, or None.
     """
     last: dict = {}
+    calls = {"n": 0, "after_first": 0}
+    SHRINK_BUDGET = 250  # probe calls after the first failure (bounded by count, not by time)
 
     @hypothesis.seed(seed)
     @settings(
@@ -64,6 +66,10 @@ def find_minimal(seed: int, max_examples: int, strategy, probe, bucket: str):
     )
     @given(strategy)
     def _test(value):
+        if "f" in last:
+            calls["after_first"] += 1
+            if calls["after_first"] > SHRINK_BUDGET:
+                return  # budget used up: stop accepting further shrinks
         res = probe(value)
         if bucket in res:
             last["f"] = res[bucket]
